@@ -724,7 +724,7 @@ class Executor:
             kind = pj[0]
             if kind == 'deref':
                 v = cur_val if is_val else self.read_ref(cur_ref)
-                if isinstance(v, Choice):
+                if isinstance(v, Choice) and any(isinstance(a, (Ref, MutSlice, Choice)) for _, a in v.alts):
                     v = self.concretize(v)
                 if isinstance(v, Ref):
                     cur_ref, is_val = v, False
@@ -1214,6 +1214,12 @@ class Executor:
     def type_name_of(self, v):
         v = self.deref(v)
         if isinstance(v, Choice):
+            # all alternatives of one type: no need to fork to know the receiver type
+            names = set()
+            for _, a in v.alts:
+                names.add(a.ty if isinstance(a, (Struct, Enum)) else getattr(a, 'type_name', None) if not isinstance(a, Choice) else '?')
+            if len(names) == 1 and '?' not in names:
+                return names.pop()
             v = self.concretize(v)
         if isinstance(v, Struct):
             return v.ty
@@ -1419,7 +1425,7 @@ class Executor:
         self.finish_call(fr, t, ret)
 
     LIFTABLE = {'PartialEq::eq', 'PartialEq::ne', 'str::len', 'String::len', 'str::is_empty', 'str::contains', 'str::ends_with',
-                'str::starts_with', 'str::trim_end_matches', 'str::trim_start_matches', 'str::trim', 'str::to_lowercase',
+                'str::starts_with', 'str::trim_end_matches', 'str::trim_start_matches', 'str::trim', 'str::to_lowercase', 'str::to_ascii_lowercase',
                 'str::chars', 'str::split', 'Iterator::all', 'Iterator::any', 'Token::text', 'Token::text_lowercase',
                 'Token::nt_separated', 'Token::not_a_number_part', 'Set::contains', 'String::as_str', 'Deref::deref',
                 'char::is_whitespace', 'char::is_ascii_whitespace', 'char::is_alphabetic', 'char::is_alphanumeric',
